@@ -562,7 +562,10 @@ func (x *Entry) UnmarshalCBOR(data []byte) error {
 	}
 	// third is the hash Hash
 	if hash, ok := arr.Get(2); ok {
-		h := hash.([]byte)
+		h, ok := hash.([]byte)
+		if !ok {
+			return fmt.Errorf("expected hash to be []byte, got %T", hash)
+		}
 		x.Hash = h
 	} else {
 		return fmt.Errorf("expected hash to be present")
